@@ -17,7 +17,7 @@
 (***************************************************************************)
 EXTENDS Naturals, Integers, Sequences, FiniteSets, TLC
 
-CONSTANTS VsCases, SdCases, HlCases, MaxOps, KeepHist
+CONSTANTS VsCases, SdCases, HlCases, BtCases, CpCases, MaxOps, KeepHist
 VARIABLES st, out, hist
 vars == <<st, out, hist>>
 view == <<st>>
@@ -43,7 +43,21 @@ BulkSD(c) == /\ st = "init" /\ c \in SdCases
 BulkHL(c) == /\ st = "init" /\ c \in HlCases
              /\ Log("BulkHL", c, [match |-> TRUE])
              /\ UNCHANGED st
-Next == (\E c \in VsCases : BulkVS(c)) \/ (\E c \in SdCases : BulkSD(c)) \/ (\E c \in HlCases : BulkHL(c))
+\* a bit-granular element of several buffer lengths (the bit-I/O layer buffers 4096 bytes): n fields whose widths cycle
+\* through the given pattern are written; after reopen the element is read back in order, and fields of other widths are
+\* read after bit seeks to positions just before, at and just after every multiple of the buffer length, at every
+\* bit offset of the case, coming from the preceding buffer, from far away and from behind
+BulkBits(c) == /\ st = "init" /\ c \in BtCases
+               /\ Log("BulkBits", c, [match |-> TRUE])
+               /\ UNCHANGED st
+\* a compressed element whose STORED stream is longer than the coders' and the bit layer's buffers: n bytes of the
+\* given kind written in `pieces` calls; after reopen read whole, in pieces of awkward lengths, and after forward and
+\* backward seeks around the multiples of 4096 of the uncompressed and of the stored stream
+BulkComp(c) == /\ st = "init" /\ c \in CpCases
+               /\ Log("BulkComp", c, [match |-> TRUE])
+               /\ UNCHANGED st
+Next == \/ (\E c \in VsCases : BulkVS(c)) \/ (\E c \in SdCases : BulkSD(c)) \/ (\E c \in HlCases : BulkHL(c))
+        \/ (\E c \in BtCases : BulkBits(c)) \/ (\E c \in CpCases : BulkComp(c))
 Spec == Init /\ [][Next]_vars
 Bound == Len(hist) < MaxOps
 =============================================================================
